@@ -89,6 +89,8 @@ def href_pattern(url):
     pp = path.split("/")
     if pp and pp[-1].endswith(".html") and len(pp) >= 2 and pp[-2] not in ("lists", ".", "..", ""):
         pp[-1] = "*.html"
+    elif len(pp) == 1 and pp[0].endswith(".html") and pp[0] not in ("index.html", "search.html"):
+        pp[0] = "*.html"            # link to a sibling page in the same directory
     out = "/".join(pp)
     if frag:
         out += "#" + frag.split("-")[0] + "-*"
